@@ -362,6 +362,21 @@ func (fr *Frame) callFunction(st *State, fn *ssa.Function, bindings []*Val, args
 			x.vc.diag("%s: callee %s not inlined (%s): havoc", fr.fn.String(), name, why)
 		}
 	}
+	if top := x.top; top != nil && top.contract != nil && top.contract.Calls[fn.Name()] == "pure" {
+		// `calls NAME pure` in the contract of the function under verification:
+		// this function's calls to NAME (a callee without a contract of its own)
+		// are taken to be effect-free - a local assumption, listed, that does not
+		// turn into a summary other functions would see
+		x.vc.diag("%s: callee %s assumed effect-free here (calls %s pure)", fr.fn.String(), name, fn.Name())
+		x.bumpAllocTop(st)
+		var res []*Val
+		for i := 0; i < fn.Signature.Results().Len(); i++ {
+			r := x.freshVal(fn.Name()+"_r", fn.Signature.Results().At(i).Type())
+			x.refFacts(st, r)
+			res = append(res, r)
+		}
+		return res
+	}
 	if fn.Blocks == nil {
 		if !x.w.quietExternal[name] {
 			x.vc.diag("%s: external %s without contract: havoc", fr.fn.String(), name)
